@@ -33,6 +33,19 @@ CLAIMED = {
         'note': TB + ' Assumes the legal move generator is correct (C01). Does not decide score ranges or MultiPV distinctness.',
         'technique': 'custom static analysis: reaching-definition provenance, must-precede dominance, flag-sensitive untrusted-value typestate, index agreement',
     },
+    'C04': {
+        'text': 'One clause, statically decided (level "other"): mate-distance encoding agreement. By exhaustive constant evaluation of the '
+                'source expressions over mates in 0..60 moves x plies 0..40 x clocks, the scores produced by TBGenerator::probeDTM and the '
+                'checkmate scores of negaScout/quiesce form one linear family, and every decoder recovers the distance exactly: '
+                'rule50Margin (2n-1 plies for the winner, 2n for the loser), TBProbe::extendPV, the UCI mate conversion in notifyPV, the '
+                'TT ply shift (store at p1, read at p2), the win/loss classification and the 16-bit range. This is a genuine necessary '
+                'condition of "mate N means mate in N": any disagreement between an encoder and a decoder shifts every announced '
+                'distance. Right level for this clause: a finite arithmetic agreement; that a reported mate exists at all is game-tree '
+                'semantics and is not claimed.',
+        'design_ref': 'DESIGN.md section 2, C04',
+        'note': TB + ' Decides only the encoding agreement, not the existence of the announced mates nor the soundness of pruning near mate scores.',
+        'technique': 'custom static analysis: exhaustive constant evaluation of extracted expression trees over a finite domain (encoder/decoder composition)',
+    },
     'C05': {
         'text': 'Clause-limited static decision (level "other"): (1) null typestate of the lazily created engine object and of the '
                 'shared Search pointer for every command order (class-invariant induction over all methods); (2) no exception type '
@@ -147,6 +160,19 @@ CLAIMED = {
         'design_ref': 'DESIGN.md section 2, C12',
         'note': TB + ' Does not decide the exactness of distance-to-mate values.',
         'technique': 'custom static analysis: typestate dataflow with sibling-method summaries, must-pass-through on the CFG, exhaustive constant evaluation over an 8-bit domain, constant agreement',
+    },
+    'C13': {
+        'text': 'Clause-limited static decision (level "other"): (1) the three distance-to-mate blocks of TBProbe::tbProbe store an exact mate '
+                'score only under (score == 0 || rule50Margin(score, ply, clock) >= 0) and otherwise a draw bound of the right direction, '
+                'they store identical records, and rule50Margin measures the true distance for every encodable mate (exhaustive constant '
+                'evaluation, shared with C04.1) - so a mate that cannot be completed before the 50-move limit is never stored as a mate; '
+                '(2) aggressive probing is enabled only on the updateTB() == true path and probes respect minProbeDepth; (3) the PV '
+                'extension appends tablebase moves only inside the 50-move limit and only moves that keep the tablebase score. Right '
+                'level: the "not announced beyond the limit" clause is a gate-agreement fact for all positions and clocks; exact distances '
+                'and move choice are value-level (C12) and not claimed.',
+        'design_ref': 'DESIGN.md section 2, C13',
+        'note': TB + ' Does not decide exactness of reported distances or move choice.',
+        'technique': 'custom static analysis: guard-set / sibling agreement of the probe blocks, constant evaluation of the margin function, dominance',
     },
     'C14': {
         'text': 'Clause-limited static decision (level "other"): reset/frame completeness. (1) every TranspositionTable field that any '
